@@ -528,7 +528,10 @@ def session(sc):
 def est_cases(ctx):
     rng = ctx.rng
     cases = []
-    paths = ["/messages/?session_id=abc", "session_id=q1", "http://other/messages/?s=1", "/mcp?session_id=1", "/messages/é?x=1"]
+    paths = ["/messages/?session_id=abc", "session_id=q1", "http://other/messages/?s=1", "/mcp?session_id=1", "/messages/é?x=1",
+             # a message endpoint on ANOTHER origin (other port, other scheme, other spelling of the host): what the server
+             # announces is where the POSTs go
+             "http://worker.internal:8081/messages/?s=2", "https://other.example/mcp?s=3"]
     forms = [(typed, se, sd, crlf) for typed in (True, False) for se in (True, False) for sd in (True, False)
              for crlf in (False, True) if typed or se]
     for path in paths:
@@ -551,7 +554,7 @@ def est_cases(ctx):
                 if not typed and "/messages/" not in path and "/mcp" not in path:
                     at = None        # an untyped event is a 'message' event: only URL-looking data is taken as an announcement
                 cases.append({"label": "announced" if at is not None else "untyped-not-an-announcement", "timeout": 5.0,
-                              "nospace": nosp, "announce_at": at,
+                              "nospace": nosp, "announce_at": at, "path": path,
                               "script": {"connect": ["status", 0.02, 200], "stream": stream, "end": None}})
     for code in (400, 401, 403, 404, 405, 410, 500, 502, 503, 204, 301, 201, 202):
         for t in (0.0, 0.3):
@@ -649,6 +652,13 @@ def check_establishment(ctx, model, cfg):
             else:
                 klass = "announced-endpoint-not-entered"
             ctx.spec_violation(klass, case, f"announced_at={sc['announce_at']} observed={impl}")
+        # an ABSOLUTE URL is announced: that is where the first POST goes
+        ann_path = sc.get("path") or ""
+        if sc.get("announce_at") is not None and ann_path.startswith(("http://", "https://")) and o["enter"]:
+            ctx.spec_total += 1
+            if o["url"] != ann_path:
+                ctx.spec_violation("post-goes-elsewhere-than-the-announced-endpoint", case,
+                                   f"announced {ann_path!r}; the first POST went to {o['url']!r}")
         judge_leftovers(ctx, model, case, o, "enter" if not o["enter"] else "exit")
 
 
@@ -805,13 +815,16 @@ def req_cases(ctx):
                     if n1_at is not None and code not in (404, 500):
                         continue
                     plans.append((rid, "other-status", {"n1_at": n1_at, "code": code, "body": body, "ctype": ctype}))
-            for exc in ("connect", "timeout", "runtime"):
+            for exc in ("connect", "timeout", "runtime", "disconnect"):
                 plans.append((rid, "exception", {"n1_at": n1_at, "exc": exc}))
             plans.append((rid, "event-then-failure", {"n1_at": n1_at, "dp": 0.6, "de": 0.2, "outcome": ["exc", "timeout"]}))
+            # the server took the POST and answered on the stream; the POST's connection is then lost before any response byte
+            # (a keep-alive connection dropped): a client that re-sends the POST has the request handled - and answered - twice
+            plans.append((rid, "event-then-failure", {"n1_at": n1_at, "dp": 0.6, "de": 0.2, "outcome": ["exc", "disconnect"]}))
             plans.append((rid, "event-then-failure", {"n1_at": n1_at, "dp": 0.6, "de": 0.2, "outcome": ["status", 500, b"boom", "text/plain"]}))
     limit = ctx.budget(460, 100000)
     if len(plans) > limit:
-        must = [p for p in plans if p[0] in ("r1", 7) and p[2].get("n1_at") is None]
+        must = [p for p in plans if (p[0] in ("r1", 7) and p[2].get("n1_at") is None) or "disconnect" in json.dumps(_jsonable(p[2]))]
         rest = [p for p in plans if p not in must]
         plans = must + rng.sample(rest, max(0, limit - len(must)))
     for rid, mode, variant in plans:
